@@ -18,6 +18,7 @@ import (
 	"sync"
 	"sync/atomic"
 	"testing/synctest"
+	"time"
 )
 
 type Role int
@@ -144,6 +145,7 @@ type Sched struct {
 	dead chan struct{} // never closed: abandoned goroutines block here
 
 	CrashRequested bool
+	ClockNudges    int // times the clock was advanced because a goroutine waited off-gate with nothing enabled
 	// WorkBudget, when > 0, bounds the number of storage and chain-node queries
 	// one client call may make; a call that exceeds it is ended (recorded in
 	// Stalls): it is doing an unbounded amount of work instead of answering.
@@ -391,7 +393,19 @@ func (s *Sched) Enabled() []Action {
 			if s.workerBlocked(inst) {
 				out = append(out, Action{g, "suspend"})
 			} else if len(inst.Pending) > 0 {
-				out = append(out, Action{g, "deliver"})
+				// the wallet has one buffered channel for blocks and one for
+				// unconfirmed transactions: each is FIFO, but which of the
+				// two its select serves first is open when both hold
+				// something. The head of either queue may be delivered.
+				fb, ft := firstOfKind(inst.Pending)
+				switch {
+				case fb >= 0 && ft >= 0 && fb < ft:
+					out = append(out, Action{g, "deliver"}, Action{g, "deliver-tx"})
+				case fb >= 0 && ft >= 0:
+					out = append(out, Action{g, "deliver"}, Action{g, "deliver-block"})
+				default:
+					out = append(out, Action{g, "deliver"})
+				}
 			}
 		case "worker.select":
 			inst := g.Inst
@@ -409,6 +423,63 @@ func (s *Sched) Enabled() []Action {
 		}
 	}
 	return out
+}
+
+// firstOfKind returns the positions of the oldest block and the oldest
+// transaction notification (-1 if none).
+//
+//go:norace
+func firstOfKind(p []delivery) (fb, ft int) {
+	fb, ft = -1, -1
+	for i, d := range p {
+		if d.block != nil && fb < 0 {
+			fb = i
+		}
+		if d.tx != nil && ft < 0 {
+			ft = i
+		}
+		if fb >= 0 && ft >= 0 {
+			break
+		}
+	}
+	return
+}
+
+// blockedOffGate reports whether some live managed goroutine is neither parked
+// at a gate nor finished: it waits for something inside the wallet - a
+// channel, a WaitGroup, or a timer.
+//
+//go:norace
+func (s *Sched) blockedOffGate() bool {
+	s.mu.Lock()
+	defer s.mu.Unlock()
+	for _, g := range s.order {
+		if !g.done && g.parked == "" && !g.gone() {
+			return true
+		}
+	}
+	return false
+}
+
+// enabledAfterTimers is called when nothing is enabled: if a goroutine waits
+// off-gate it may be waiting for a timer (a poll loop, a time-out), so the
+// simulated clock jumps ahead - a few times, a second each - before the state
+// counts as stuck. Nothing in the wallet on this tree sleeps; a change that
+// adds a legitimate timed wait must not read as a deadlock.
+//
+//go:norace
+func (s *Sched) enabledAfterTimers() []Action {
+	for i := 0; i < 3 && s.blockedOffGate(); i++ {
+		raceOff()
+		time.Sleep(time.Second)
+		synctest.Wait()
+		raceOn()
+		s.ClockNudges++
+		if en := s.Enabled(); len(en) > 0 {
+			return en
+		}
+	}
+	return nil
 }
 
 //go:norace
@@ -436,9 +507,21 @@ func (s *Sched) Do(a Action) {
 	g := a.G
 	s.mu.Lock()
 	switch a.Kind {
-	case "deliver":
-		d := g.Inst.Pending[0]
-		g.Inst.Pending = g.Inst.Pending[1:]
+	case "deliver", "deliver-tx", "deliver-block":
+		// "deliver" takes the oldest notification; the other two take the
+		// head of the other queue (overtaking notifications of the first kind)
+		k := 0
+		fb, ft := firstOfKind(g.Inst.Pending)
+		if a.Kind == "deliver-tx" {
+			k = ft
+		} else if a.Kind == "deliver-block" {
+			k = fb
+		}
+		d := g.Inst.Pending[k]
+		g.Inst.Pending = append(append([]delivery(nil), g.Inst.Pending[:k]...), g.Inst.Pending[k+1:]...)
+		if k > 0 {
+			g.Inst.W.Stats["probe.notification_overtook_other_queue"]++
+		}
 		s.mu.Unlock()
 		if os.Getenv("VERIF_EXP_INJECT_OFF") != "" {
 			raceOff()
@@ -470,7 +553,9 @@ func (s *Sched) Do(a Action) {
 func (s *Sched) Step() bool {
 	en := s.Enabled()
 	if len(en) == 0 {
-		return false
+		if en = s.enabledAfterTimers(); len(en) == 0 {
+			return false
+		}
 	}
 	i := s.Tape.Int(len(en))
 	s.Do(en[i])
@@ -484,7 +569,9 @@ func (s *Sched) Step() bool {
 func (s *Sched) StepFair() bool {
 	en := s.Enabled()
 	if len(en) == 0 {
-		return false
+		if en = s.enabledAfterTimers(); len(en) == 0 {
+			return false
+		}
 	}
 	sort.SliceStable(en, func(i, j int) bool { return en[i].G.seq < en[j].G.seq })
 	// first action whose goroutine seq is > cursor, else wrap
